@@ -471,9 +471,41 @@ class CFG:
                 if sval is not UNKNOWN and sval not in (TRUTHY, FALSY):
                     if taken:
                         continue
-                    if is_default or (lits is not None and sval in lits):
+                    matches = is_default or (lits is not None and sval in lits)
+                    if matches and case.guard is not None:
+                        # `case x if guard`: the capture is bound to the subject
+                        env2 = dict(self.env)
+                        if isinstance(case.pattern, ast.MatchAs) and \
+                                case.pattern.name:
+                            env2[case.pattern.name] = sval
+                        guard = case.guard
+                        if isinstance(case.pattern, ast.MatchAs) and \
+                                case.pattern.name:
+                            # read the guard over the subject expression
+                            from sa.model import clone
+                            cap = case.pattern.name
+                            subj_expr = stmt.subject
+
+                            class _S(ast.NodeTransformer):
+
+                                def visit_Name(self, node):
+                                    return clone(subj_expr) if node.id == cap \
+                                        else node
+
+                            guard = ast.fix_missing_locations(
+                                _S().visit(clone(case.guard)))
+                        g = self.oracle(guard) if self.oracle else None
+                        if g is None:
+                            g = truth(case.guard, env2)
+                        if g is False:
+                            continue
+                        if g is None:
+                            matches = None  # may or may not be taken
+                    if matches:
                         taken = True
-                    elif lits is not None:
+                    elif matches is None:
+                        pass
+                    elif lits is not None or is_default:
                         continue
                 c = self._new("case", case, stmt)
                 self._edge(subj, c, "case")
